@@ -273,7 +273,7 @@ class C13(flow.Spec):
 
     def cases(self, ctx, seed, tier, round_no=0):
         rng = random.Random(seed * 1000003 + round_no * 7919 + 13)
-        n = 250 if tier == "quick" else 4000
+        n = 250 if tier == "quick" else 12000
         cs = []
         for i in range(n):
             cs.append(gen_dary_case(rng, i, rng.choice([8, 20, 40, 80])))
